@@ -7,20 +7,23 @@
  */
 #ifndef C09_STEP_H
 #define C09_STEP_H
+#include "stubs/C09_str.h"
 #include "contracts/C09_glue.h"
 #include "contracts/C03_leaf.h"
+#ifndef C09_TAIL_MODEL
+#error "the step contract is written over the append-only string model (compile with -DC09_TAIL_MODEL)"
+#endif
 
 /* parser state: the locals of parse_data_string that live across iterations (names and types from the source) */
 extern const char* in; extern uint8_t chr;
 extern bool reading_string, reading_unicode_string, reading_comment, reading_multiline_comment, reading_high_nybble, reading_filename;
 extern bool big_endian, mask_enabled, allow_files;
-extern vstr* data; extern vstr* mask; extern vstr filename;
+extern OUT_STR* data; extern OUT_STR* mask; extern vstr filename;
 
 /* ghosts fixed by the preconditions */
 extern size_t g_n;                                  /* remaining text: in[g_n] == 0 is the terminator (g_end) */
 extern char g_c0, g_c1, g_c2, g_c3;                 /* the characters at in[0..3] (0 after the first NUL) */
 extern size_t g_j;                                  /* ghost index into the bytes appended by this step */
-extern uint8_t g_vval;                              /* value of data byte g_vk before the step (frame) */
 
 #define O(x) __CPROVER_old(x)
 #define C0 g_c0
@@ -66,34 +69,50 @@ extern uint8_t g_vval;                              /* value of data byte g_vk b
                   : (C0 == '#' || C0 == '%') ? ORDERED_BYTE(NUMVAL, NOUT, j, O(big_endian)) \
                   : (O(chr) | HEXVAL(C0))))
 
+/* The high byte of the code unit of a character >= 0x80 inside '...' is judged by its own obligation group
+ * (parse_data_string.wide_char: zero extension, independent of the signedness of char), not by the step contract. */
+#define WIDE_CH ((char)(C0 == '\\' ? UNESC(C1) : C0))
+#define WIDE_HIGH_OF_NEGATIVE(j) (M_RUS && WIDE_CH < 0 && (j) == (O(big_endian) ? 0 : 1))
+
+/* output strings (append-only model, stubs/C09_str.h): window empty on entry, room for one step */
+#define OUT_REQ(s) __CPROVER_requires(__CPROVER_is_fresh(s, sizeof(OUT_STR))) \
+                   __CPROVER_requires((s)->nw == 0 && (s)->cap <= VSTR_MAXCAP && (s)->size <= (s)->cap && (s)->cap - (s)->size >= C09_WIN)
 #ifdef MASK_NULL
 #define STEP_MASK_REQ __CPROVER_requires(mask == 0)
 #define STEP_MASK_ENS
 #define STEP_MASK_ASSIGNS
 #else
-#define STEP_MASK_REQ __CPROVER_requires(__CPROVER_is_fresh(mask, sizeof(vstr))) \
-                      __CPROVER_requires(mask->cap <= VSTR_MAXCAP && mask->size <= mask->cap && mask->cap - mask->size >= 8) \
-                      __CPROVER_requires(__CPROVER_is_fresh(mask->data, mask->cap))
-#define STEP_MASK_ENS __CPROVER_ensures(mask->size == O(mask->size) + NOUT) \
-                      __CPROVER_ensures((g_vk >= O(mask->size) && g_vk < mask->size) ==> (uint8_t)mask->data[g_vk] == PDS_MASK_BYTE(O(mask_enabled)))
-#define STEP_MASK_ASSIGNS , mask->size, __CPROVER_object_from(mask->data + mask->size)
+#define STEP_MASK_REQ OUT_REQ(mask)
+#define STEP_MASK_ENS __CPROVER_ensures(mask->size == O(mask->size) + NOUT && mask->nw == NOUT) \
+                      __CPROVER_ensures(g_j < NOUT ==> (uint8_t)mask->w[g_j] == PDS_MASK_BYTE(O(mask_enabled)))
+#define STEP_MASK_ASSIGNS , mask->size, mask->nw, __CPROVER_object_upto(mask->w, C09_WIN)
+#endif
+
+/* the remaining text is an object of its own when the step is verified; at the call inside parse_data_string it is the tail of
+ * the text object (is_fresh cannot describe a pointer into the middle of an object) */
+#ifdef STEP_AT_CALL_SITE
+#define STEP_TEXT_REQ __CPROVER_requires(__CPROVER_r_ok(in, g_n + 1))
+#else
+/* g_s_*: copies of the entry state for the counterexample -> native replay path (replay/C09/datastring.cc, mode step) */
+extern bool g_s_rc, g_s_rmc, g_s_rs, g_s_rus, g_s_high, g_s_be, g_s_me; extern uint8_t g_s_chr;
+#define STEP_TEXT_REQ __CPROVER_requires(__CPROVER_is_fresh(in, g_n + 1)) \
+  __CPROVER_requires(g_s_rc == reading_comment && g_s_rmc == reading_multiline_comment && g_s_rs == reading_string && g_s_rus == reading_unicode_string) \
+  __CPROVER_requires(g_s_high == reading_high_nybble && g_s_be == big_endian && g_s_me == mask_enabled && g_s_chr == chr)
 #endif
 
 void pds_step(void)
 /* the text, the position, the look-ahead ghosts */
 __CPROVER_requires(g_n >= 1 && g_n <= PDS_MAXTEXT)
-__CPROVER_requires(__CPROVER_is_fresh(in, g_n + 1))
+STEP_TEXT_REQ
 __CPROVER_requires(in[g_n] == 0 && g_end == in + g_n)
 __CPROVER_requires(g_c0 == in[0] && g_c0 != 0 && g_c1 == in[1])
 __CPROVER_requires(g_c2 == (g_c1 == 0 ? 0 : in[2]))
 __CPROVER_requires(g_c3 == (g_c2 == 0 ? 0 : in[3]))
-/* output strings: room for one step (a step appends at most 8 bytes) */
-__CPROVER_requires(__CPROVER_is_fresh(data, sizeof(vstr)))
-__CPROVER_requires(data->cap <= VSTR_MAXCAP && data->size <= data->cap && data->cap - data->size >= 8)
-__CPROVER_requires(__CPROVER_is_fresh(data->data, data->cap))
-__CPROVER_requires(g_vk < data->size ==> g_vval == (uint8_t)data->data[g_vk])
+OUT_REQ(data)
 STEP_MASK_REQ
 /* state invariants */
+__CPROVER_requires(PDS_B01(reading_string) && PDS_B01(reading_unicode_string) && PDS_B01(reading_comment) && PDS_B01(reading_multiline_comment))
+__CPROVER_requires(PDS_B01(reading_high_nybble) && PDS_B01(big_endian) && PDS_B01(mask_enabled))
 __CPROVER_requires(!allow_files && !reading_filename && verif_exc == 0 && !g_returned && g_st_calls == 0 && g_load_calls == 0)
 __CPROVER_requires(PDS_MODES_OK(reading_comment, reading_multiline_comment, reading_string, reading_unicode_string))
 __CPROVER_requires(PDS_NYBBLE_OK(reading_high_nybble, chr))
@@ -118,14 +137,13 @@ __CPROVER_ensures(IS_NUM ==> (g_st_calls == 1 && g_st_arg == O(in) + (C0 == '#' 
 __CPROVER_ensures(IS_NUM ==> (g_st_kind == (C0 == '#' ? 1 : C1 == '%' ? 2 : 3) && (C0 == '#' ==> g_st_base == 0)))
 __CPROVER_ensures(g_returned || __CPROVER_POINTER_OFFSET(in) > __CPROVER_POINTER_OFFSET(O(in)))
 /* ---- output ---------------------------------------------------------------------------------------------------------- */
-__CPROVER_ensures(data->size == O(data->size) + NOUT)
+__CPROVER_ensures(data->size == O(data->size) + NOUT && data->nw == NOUT)
 __CPROVER_ensures(NOUT <= 4 * (__CPROVER_POINTER_OFFSET(in) - __CPROVER_POINTER_OFFSET(O(in))))
-__CPROVER_ensures((g_vk >= O(data->size) && g_vk < data->size) ==> (uint8_t)data->data[g_vk] == OUTBYTE(g_vk - O(data->size)))
-__CPROVER_ensures(g_vk < O(data->size) ==> (uint8_t)data->data[g_vk] == g_vval)
+__CPROVER_ensures((g_j < NOUT && !WIDE_HIGH_OF_NEGATIVE(g_j)) ==> (uint8_t)data->w[g_j] == OUTBYTE(g_j))
 STEP_MASK_ENS
 __CPROVER_assigns(in, chr, reading_string, reading_unicode_string, reading_comment, reading_multiline_comment, reading_high_nybble,
                   big_endian, mask_enabled, g_returned,
                   g_st_calls, g_st_arg, g_st_end, g_st_base, g_st_kind, g_num, g_dbl, g_flt,
-                  data->size, __CPROVER_object_from(data->data + data->size) STEP_MASK_ASSIGNS);
+                  data->size, data->nw, __CPROVER_object_upto(data->w, C09_WIN) STEP_MASK_ASSIGNS);
 
 #endif
